@@ -13,9 +13,10 @@ def Mono : Int → List Ev → Prop
   | lo, e :: r => lo ≤ e.time ∧ Mono e.time r
 
 /-- is `e`, handled in state `s`, a genuine client-side read or write?
-    (a writable report with nothing queued does no I/O) -/
+    (a writable report with nothing queued does no I/O; a readable report after reading ended is not read) -/
 def clientIO (s : St) : Ev → Bool
-  | .clientRead _ _ => true
+  | .clientRead _ _ => !s.readsTorn
+  | .clientReadEnd _ => !s.readsTorn
   | .clientWrite _ _ => s.numBuffer != 0
   | _ => false
 
@@ -30,6 +31,7 @@ def ioTimes (cfg : Cfg) : St → List Ev → List Int
     (a writable report is allowed: with an empty buffer it does nothing) -/
 def Quiet : Ev → Prop
   | .clientRead _ _ => False
+  | .clientReadEnd _ => False
   | .clientWrite _ _ => True
   | .upstream _ k => k = 0
   | .loopIter _ => True
@@ -59,6 +61,7 @@ def decPaced (D : Int) : (last : Int) → (tr : List Ev) → Decidable (Paced D 
     have := decPaced D t r
     (inferInstance : Decidable (last ≤ t ∧ t ≤ last + D ∧ Paced D t r))
   | last, .clientRead _ _ :: r => decPaced D last r
+  | last, .clientReadEnd _ :: r => decPaced D last r
   | last, .clientWrite _ _ :: r => decPaced D last r
   | last, .upstream _ _ :: r => decPaced D last r
 
@@ -83,27 +86,44 @@ theorem run_append (cfg : Cfg) (s : St) (a b : List Ev) :
     run cfg s (a ++ b) = run cfg (run cfg s a) b := by
   simp [run, List.foldl_append]
 
-theorem step_reaped (cfg : Cfg) (s : St) (e : Ev) (t : Int) (h : s.status = .reaped t) :
-    (step cfg s e).status = .reaped t := by
-  cases e <;> simp only [step, h] <;> (try split) <;> simp_all
-
-theorem run_reaped (cfg : Cfg) (tr : List Ev) : ∀ (s : St) (t : Int), s.status = .reaped t →
-    (run cfg s tr).status = .reaped t := by
-  induction tr with
-  | nil => intro s t h; exact h
-  | cons e r ih => intro s t h; rw [run_cons]; exact ih _ t (step_reaped cfg s e t h)
-
-/-- a non-loop event never changes the status -/
-theorem step_status_nonloop (cfg : Cfg) (s : St) (e : Ev) (h : ∀ t, e ≠ .loopIter t) :
+/-- nothing happens to a connection that is no longer open -/
+theorem step_closed (cfg : Cfg) (s : St) (e : Ev) (h : s.status ≠ .open) :
     (step cfg s e).status = s.status := by
+  cases hs : s.status with
+  | «open» => exact absurd hs h
+  | reaped t0 => cases e <;> simp only [step, hs] <;> (try split) <;> simp_all
+  | torn t0 => cases e <;> simp only [step, hs] <;> (try split) <;> simp_all
+
+theorem run_closed (cfg : Cfg) (tr : List Ev) : ∀ (s : St), s.status ≠ .open →
+    (run cfg s tr).status = s.status := by
+  induction tr with
+  | nil => intro s _; rfl
+  | cons e r ih =>
+    intro s h
+    have h1 := step_closed cfg s e h
+    rw [run_cons, ih _ (by rw [h1]; exact h), h1]
+
+theorem run_reaped (cfg : Cfg) (tr : List Ev) (s : St) (t : Int) (h : s.status = .reaped t) :
+    (run cfg s tr).status = .reaped t := by
+  rw [run_closed cfg tr s (by rw [h]; intro h'; cases h'), h]
+
+/-- a non-loop event never reaps: it leaves an open connection open or tears it down -/
+theorem step_status_nonloop (cfg : Cfg) (s : St) (e : Ev) (h : ∀ t, e ≠ .loopIter t) (ho : s.status = .open) :
+    (step cfg s e).status = .open ∨ ∃ t, (step cfg s e).status = .torn t := by
   cases e with
   | loopIter t => exact absurd rfl (h t)
-  | clientRead t k => simp only [step]; split <;> simp_all [connStep]
+  | clientRead t k => simp only [step, ho, connStep]; split <;> simp_all
+  | clientReadEnd t =>
+    simp only [step, ho, connStep]; split
+    · simp_all
+    · by_cases hb : s.numBuffer = 0 <;> simp [hb]
   | clientWrite t f =>
-    simp only [step]; split
-    · simp only [connStep]; split <;> simp_all
-    · rfl
-  | upstream t k => simp only [step]; split <;> simp_all [connStep]
+    simp only [step, ho, connStep]; split
+    · simp_all
+    · by_cases hc : (s.readsTorn && (if f = true then s.numBuffer - 1 else s.numBuffer) == 0) = true
+      · exact .inr ⟨t, by simp only [hc, if_true]⟩
+      · exact .inl (by simp only [hc]; simp)
+  | upstream t k => simp only [step, ho, connStep]; simp
 
 /-- what the reaper decides on an open connection -/
 theorem step_loop_open (cfg : Cfg) (s : St) (t : Int) (h : s.status = .open) :
@@ -120,15 +140,25 @@ theorem isInactive_iff (cfg : Cfg) (s : St) (now : Int) :
 theorem step_la (cfg : Cfg) (s : St) (e : Ev) :
     (step cfg s e).lastActivity =
       if s.status = .open ∧ clientIO s e = true then e.time else s.lastActivity := by
-  cases e with
-  | loopIter t => simp only [step, clientIO]; split <;> simp
-  | clientRead t k => simp only [step]; split <;> simp_all [connStep, clientIO, Ev.time]
-  | clientWrite t f =>
-    simp only [step]; split
-    · rename_i ho
-      simp only [connStep]; split <;> simp_all [clientIO, Ev.time]
-    · rename_i hno; simp_all
-  | upstream t k => simp only [step]; split <;> simp_all [connStep, clientIO]
+  by_cases ho : s.status = .open
+  · cases e with
+    | loopIter t => simp only [step, clientIO]; split <;> simp
+    | clientRead t k =>
+      simp only [step, ho, connStep, clientIO, Ev.time]
+      cases s.readsTorn <;> simp
+    | clientReadEnd t =>
+      simp only [step, ho, connStep, clientIO, Ev.time]
+      cases s.readsTorn <;> simp
+    | clientWrite t f =>
+      simp only [step, ho, connStep, clientIO, Ev.time]
+      by_cases hb : s.numBuffer = 0 <;> simp [hb]
+    | upstream t k => simp [step, ho, connStep, clientIO]
+  · have : (step cfg s e).lastActivity = s.lastActivity := by
+      cases hs : s.status with
+      | «open» => exact absurd hs ho
+      | reaped t0 => cases e <;> simp only [step, hs] <;> (try split) <;> simp_all
+      | torn t0 => cases e <;> simp only [step, hs] <;> (try split) <;> simp_all
+    rw [this, if_neg (fun h => ho h.1)]
 
 theorem Mono_append_left : ∀ (a b : List Ev) (lo : Int), Mono lo (a ++ b) → Mono lo a := by
   intro a; induction a with
@@ -173,19 +203,18 @@ theorem reaped_split (cfg : Cfg) (tr : List Ev) : ∀ (s : St) (t : Int), s.stat
     by_cases hs : (step cfg s e).status = .open
     · obtain ⟨pre, rest, h1, h2, h3, h4⟩ := ih _ t hs h
       exact ⟨e :: pre, rest, by rw [h1]; rfl, h2, h3, h4⟩
-    · cases e with
-      | loopIter t' =>
-        rw [step_loop_open cfg s t' ho] at hs
+    · rw [run_closed cfg r _ hs] at h
+      by_cases hl : ∃ t', e = .loopIter t'
+      · obtain ⟨t', rfl⟩ := hl
+        rw [step_loop_open cfg s t' ho] at h
         by_cases hc : due cfg s.tick = true ∧ isInactive cfg s t' = true
-        · have hr : (step cfg s (.loopIter t')).status = .reaped t' := by
-            rw [step_loop_open cfg s t' ho, if_pos hc]
-          rw [run_reaped cfg r _ t' hr] at h
+        · rw [if_pos hc] at h
           cases h
           exact ⟨[], r, rfl, ho, hc.1, hc.2⟩
-        · rw [if_neg hc] at hs; exact absurd rfl hs
-      | clientRead t' k => rw [step_status_nonloop cfg s _ (by intro t h; cases h)] at hs; exact absurd ho hs
-      | clientWrite t' f => rw [step_status_nonloop cfg s _ (by intro t h; cases h)] at hs; exact absurd ho hs
-      | upstream t' k => rw [step_status_nonloop cfg s _ (by intro t h; cases h)] at hs; exact absurd ho hs
+        · rw [if_neg hc] at h; cases h
+      · rcases step_status_nonloop cfg s e (fun t' he => hl ⟨t', he⟩) ho with h' | ⟨t', h'⟩
+        · exact absurd h' hs
+        · rw [h'] at h; cases h
 
 /-! ## Cadence -/
 
@@ -213,6 +242,7 @@ theorem quiet_step (cfg : Cfg) (s : St) (e : Ev) (t0 : Int) (hi : IdleAt s t0) (
   cases e with
   | loopIter t => exact absurd rfl (hn t)
   | clientRead t k => exact absurd hq (by simp [Quiet])
+  | clientReadEnd t => exact absurd hq (by simp [Quiet])
   | clientWrite t f => simp [step, hi.op, connStep, hi.nb]
   | upstream t k =>
     simp only [Quiet] at hq; subst hq
@@ -282,6 +312,7 @@ theorem phaseB (cfg : Cfg) (N : Nat) (D t0 : Int) (hdue : ∀ k, due cfg k = tru
         | succ m' =>
           have hc := succ_mul_cast m' D
           exact ih _ t m' Bd hi' (by omega) (by rw [htick]; omega) (by omega) hqr hp3
+    | clientReadEnd t => exact absurd hqe (by simp [Quiet])
     | clientRead t k =>
       rw [quiet_step cfg s _ t0 hi hqe (by intro t h; cases h)]
       exact ih s last m Bd hi hl hm hB hqr hp
@@ -333,6 +364,7 @@ theorem phaseA (cfg : Cfg) (N : Nat) (D t0 : Int) (hdue : ∀ k, due cfg k = tru
             have := phaseB cfg (n + 1) D t0 hdue hD r _ t n (t0 + cfg.timeout + D + ((n + 1 : Nat) : Int) * D)
               hi' (by omega) (by rw [htick]; omega) (by omega) hqr hp3
             rw [run_cons]; simp only [lastIter]; exact this
+    | clientReadEnd t => exact absurd hqe (by simp [Quiet])
     | clientRead t k =>
       rw [run_cons, quiet_step cfg s _ t0 hi hqe (by intro t h; cases h)]
       exact ih s last hi hl hqr hp
@@ -365,6 +397,10 @@ theorem le_lastIter (D : Int) (tr : List Ev) : ∀ (last : Int), Paced D last tr
       have ⟨h1, h2⟩ := ih last hp
       exact ⟨h1, fun t ht => h2 t (by rcases List.mem_cons.1 ht with h | h <;> first | exact h | cases h)⟩
     | clientWrite t' f =>
+      simp only [Paced] at hp; simp only [lastIter]
+      have ⟨h1, h2⟩ := ih last hp
+      exact ⟨h1, fun t ht => h2 t (by rcases List.mem_cons.1 ht with h | h <;> first | exact h | cases h)⟩
+    | clientReadEnd t' =>
       simp only [Paced] at hp; simp only [lastIter]
       have ⟨h1, h2⟩ := ih last hp
       exact ⟨h1, fun t ht => h2 t (by rcases List.mem_cons.1 ht with h | h <;> first | exact h | cases h)⟩
